@@ -34,7 +34,7 @@ func packResults(res []Val, T types.Type) Val {
 
 // callCommon executes a call; preArgs/preFn are supplied for deferred calls (already evaluated).
 func (a *Activation) callCommon(c *ssa.CallCommon, st *State, pos token.Pos, preArgs []Val, preFn *Val) (*State, []Val) {
-	t := a.t
+	_ = a.t
 	var args []Val
 	if preArgs != nil {
 		args = preArgs
@@ -68,7 +68,9 @@ func (a *Activation) callCommon(c *ssa.CallCommon, st *State, pos token.Pos, pre
 		return a.callStatic(fn, args, fv.Clo.Bindings, st, pos, sig)
 	}
 	// function value of unknown code
-	_ = t
+	if a.hasClause("purecalls") {
+		return a.pureApply(fv, args, sig, st, pos)
+	}
 	return a.opaqueCall(fv, args, sig, st, pos, "")
 }
 
@@ -286,6 +288,9 @@ func (a *Activation) opaqueCallX(fv Val, args []Val, sig *types.Signature, st *S
 			if kd == KInt {
 				t.assume(st.pc, inRangeTerm(term, LT))
 			}
+			if kd == KFunc {
+				t.funcValFact(st.pc, term)
+			}
 			return term
 		})
 		a.wfRef(st, v)
@@ -340,10 +345,60 @@ func (a *Activation) opaqueWithContract(con *FuncContract, recv Val, method stri
 	return out, res
 }
 
+func (a *Activation) hasClause(kind string) bool {
+	for _, con := range []*FuncContract{a.rootContract(), a.conForLoops()} {
+		if con == nil {
+			continue
+		}
+		for _, c := range con.Clauses {
+			if c.Kind == kind {
+				return true
+			}
+		}
+	}
+	return false
+}
+
+// appTerm: application of a pure (deterministic, side-effect free) function value.
+func (t *Task) appTerm(f string, args []Val, rk Kind) string {
+	var flat []Val
+	for _, x := range args {
+		flattenScalars(x, &flat)
+	}
+	sig := ""
+	sorts := []string{"Int"}
+	terms := []string{f}
+	for _, x := range flat {
+		sig += sortSig(x.K)
+		sorts = append(sorts, sortOfKind(x.K))
+		terms = append(terms, x.S)
+	}
+	fn := t.declareFun("$app_"+sig+"_"+sortSig(rk), sorts, sortOfKind(rk))
+	return sApp(fn, terms...)
+}
+
+func (a *Activation) pureApply(fv Val, args []Val, sig *types.Signature, st *State, pos token.Pos) (*State, []Val) {
+	t := a.t
+	t.assumed["condition predicates (handle/abort/cancel/cache conditions) are pure: deterministic and without effect on library state"] = true
+	a.obligeSafety(st, "nilcall", "call of function value", sNot(sEq(fv.S, "0")), pos)
+	var res []Val
+	if sig.Results().Len() != 1 {
+		t.errorf("%s: purecalls supports single-result functions only", fullName(a.fn))
+		return a.opaqueResult(st, sig, "pure")
+	}
+	RT := sig.Results().At(0).Type()
+	k := kindOfType(RT)
+	res = append(res, Val{K: k, T: RT, S: t.appTerm(fv.S, args, k)})
+	return st, res
+}
+
 // keepAcrossOpaque: arrays preserved across a call into unknown code.
 func (e *Eng) keepAcrossOpaque(name string) bool {
 	if strings.HasPrefix(name, "box:") {
 		return true // boxed values are immutable
+	}
+	if strings.HasPrefix(name, "cell:") {
+		return true // address-taken locals and captured variables are only reachable from the function and its closures
 	}
 	if e.con.Frozen[name] || e.con.Confined[name] {
 		return true
@@ -364,11 +419,27 @@ func (e *Eng) keepAcrossOpaque(name string) bool {
 
 // ---- interface method calls ----
 
+// mthTerm: ghost identity of "method m of interface value recv" as a callable; injective in (m, recv) and
+// disjoint from real function values.
 func (t *Task) mthTerm(method string, recv string) string {
 	f := t.declareFun("$mth", []string{"Int", "Int"}, "Int")
 	id := t.eng.methID(method)
 	term := sApp(f, sInt(int64(id)), recv)
+	key := "mthinj:" + term
+	if !t.pureDone[key] {
+		t.pureDone[key] = true
+		fm := t.declareFun("$mthm", []string{"Int"}, "Int")
+		fr := t.declareFun("$mthr", []string{"Int"}, "Int")
+		t.lateFacts = append(t.lateFacts, sAnd(sEq(sApp(fm, term), sInt(int64(id))), sEq(sApp(fr, term), recv), sEq(sApp(t.fkind(), term), "3")))
+	}
 	return term
+}
+
+func (t *Task) fkind() string { return t.declareFun("$fkind", []string{"Int"}, "Int") }
+
+// funcValFact: a value of function type is a real function value, never a ghost method identity.
+func (t *Task) funcValFact(pc, term string) {
+	t.assume(pc, sNot(sEq(sApp(t.fkind(), term), "3")))
 }
 
 func (a *Activation) invoke(recv Val, m *types.Func, args []Val, sig *types.Signature, st *State, pos token.Pos) (*State, []Val) {
@@ -690,14 +761,79 @@ func (a *Activation) loopHead(li *loopInfo, b *ssa.BasicBlock, st *State) *State
 		a.env[phi] = nv
 	}
 	mods, all := a.loopModSet(li)
+	anyCalls := mods["$anycalls"] || all
+	anyAlloc := mods["$anyalloc"] || anyCalls
 	nst := t.havocState(st, func(name string) bool {
 		if all {
 			return t.eng.keepAcrossOpaque(name)
 		}
 		return !mods[name]
 	})
+	// refined havoc: arrays only written at loop-invariant locations or at objects allocated inside the loop
+	if !all {
+		t.regArray("$now", "Int")
+		nowPre := t.lookup(st, "$now")
+		age := t.declareFun("$age", []string{"Int"}, "Int")
+		var names []string
+		for name := range a.loopModes {
+			names = append(names, name)
+		}
+		sort.Strings(names)
+		for _, name := range names {
+			m := a.loopModes[name]
+			if m.full || !mods[name] {
+				continue
+			}
+			srt, ok := t.arrSort[name]
+			if !ok || !strings.HasPrefix(srt, "(Array Int") {
+				continue
+			}
+			pre := t.lookup(st, name)
+			var pts []string
+			okPts := true
+			for _, pv := range m.points {
+				v, have := a.env[pv]
+				if !have {
+					if _, isP := pv.(*ssa.Parameter); !isP {
+						okPts = false
+						break
+					}
+					v = a.val(pv, st)
+				}
+				if v.Loc != nil && v.K == KRef {
+					// interior pointer root: the object reference is v.S
+				}
+				pts = append(pts, v.S)
+			}
+			if !okPts {
+				continue
+			}
+			nv := t.lookup(nst, name) // fresh constant
+			if !m.fresh {
+				// exactly the listed points may differ
+				cur := pre
+				for _, pt := range pts {
+					cur = sApp("store", cur, pt, sApp("select", nv, pt))
+				}
+				t.asserts = append(t.asserts, sImp(st.pc, sEq(nv, cur)))
+			} else {
+				var prem []string
+				prem = append(prem, "(< "+sApp(age, "r")+" "+nowPre+")")
+				for _, pt := range pts {
+					prem = append(prem, sNot(sEq("r", pt)))
+				}
+				t.asserts = append(t.asserts, sImp(st.pc, "(forall ((r Int)) (! (=> "+sAnd(prem...)+" (= (select "+nv+" r) (select "+pre+" r))) :pattern ((select "+nv+" r))))"))
+			}
+		}
+	}
 	// ghost control state that the loop body may change
-	for _, g := range []string{"$calls", "$tick", "$now", "$otick", "$held", "$chanlen", "$chanclosed"} {
+	for _, g := range []string{"$calls", "$tick", "$now", "$otick", "$held", "$chanlen", "$chanclosed", "$spawned"} {
+		if g == "$now" && !anyAlloc {
+			continue
+		}
+		if g != "$now" && !anyCalls {
+			continue
+		}
 		if _, ok := t.arrSort[g]; ok {
 			old := t.lookup(st, g)
 			nv := t.fresh(g+"@loop", t.sortOfArray(g))
@@ -708,7 +844,7 @@ func (a *Activation) loopHead(li *loopInfo, b *ssa.BasicBlock, st *State) *State
 		}
 	}
 	for name := range t.arrSort {
-		if strings.HasPrefix(name, "$oarg") || strings.HasPrefix(name, "$ev:") || strings.HasPrefix(name, "$g:") {
+		if anyCalls && (strings.HasPrefix(name, "$oarg") || strings.HasPrefix(name, "$ev:") || strings.HasPrefix(name, "$g:") || strings.HasPrefix(name, "$timer") || strings.HasPrefix(name, "$chanmsg")) {
 			nv := t.fresh(name+"@loop", t.sortOfArray(name))
 			t.set(nst, name, nv)
 		}
@@ -782,17 +918,107 @@ func (a *Activation) loopBack(li *loopInfo, from, header *ssa.BasicBlock, pc str
 }
 
 // loopModSet: heap arrays possibly written in the loop body; all=true when unknown code is called.
+type arrMode struct {
+	full   bool
+	fresh  bool
+	points []ssa.Value
+}
+
+// classifyAddr: is the stored-to object allocated inside the loop (fresh), or named by a value defined
+// outside the loop (outside, root)?
+func (a *Activation) classifyAddr(addr ssa.Value, li *loopInfo, depth int) (root ssa.Value, fresh, outside bool) {
+	if depth > 0 {
+		return nil, false, false
+	}
+	v := addr
+	for {
+		switch x := v.(type) {
+		case *ssa.FieldAddr:
+			v = x.X
+			continue
+		case *ssa.IndexAddr:
+			// element of an array allocated in the loop (varargs) -> fresh; element of a slice: unknown
+			if al, ok := x.X.(*ssa.Alloc); ok && li.blocks[al.Block()] {
+				return nil, true, false
+			}
+			return nil, false, false
+		case *ssa.Alloc:
+			if li.blocks[x.Block()] {
+				return nil, true, false
+			}
+			return x, false, true
+		case *ssa.Parameter, *ssa.FreeVar:
+			return x, false, true
+		case ssa.Instruction:
+			if !li.blocks[x.Block()] {
+				return v, false, true
+			}
+			return nil, false, false
+		}
+		return nil, false, false
+	}
+}
+
+// storeTouches: could the store through addr write array name?
+func (a *Activation) storeTouches(addr ssa.Value, name string) bool {
+	prefix, ok := a.addrPrefix(addr)
+	if !ok {
+		if T := derefType(addr.Type()); T != nil {
+			prefix = prefixFor(T)
+		}
+	}
+	return strings.HasPrefix(name, prefix)
+}
+
 func (a *Activation) loopModSet(li *loopInfo) (map[string]bool, bool) {
 	mods := map[string]bool{}
+	a.loopModes = map[string]*arrMode{}
 	all := false
 	seen := map[*ssa.Function]bool{}
 	var scanFn func(fn *ssa.Function, blocks map[*ssa.BasicBlock]bool, depth int)
 	scanInstr := func(in ssa.Instruction, depth int) {
 		switch in := in.(type) {
 		case *ssa.Store:
+			before := map[string]bool{}
+			for k := range mods {
+				before[k] = true
+			}
 			a.addStoreTargets(in.Addr, mods)
+			root, fresh, outside := a.classifyAddr(in.Addr, li, depth)
+			for k := range mods {
+				if strings.HasPrefix(k, "$") {
+					continue
+				}
+				touched := !before[k] || a.storeTouches(in.Addr, k)
+				if !touched {
+					continue
+				}
+				m := a.loopModes[k]
+				if m == nil {
+					m = &arrMode{}
+					a.loopModes[k] = m
+				}
+				switch {
+				case fresh:
+					m.fresh = true
+				case outside && root != nil:
+					dup := false
+					for _, p := range m.points {
+						if p == root {
+							dup = true
+						}
+					}
+					if !dup {
+						m.points = append(m.points, root)
+					}
+				default:
+					m.full = true
+				}
+			}
 		case *ssa.MapUpdate, *ssa.Send, *ssa.Select, *ssa.Go:
 			all = true
+		case *ssa.Alloc, *ssa.MakeClosure, *ssa.MakeInterface, *ssa.MakeSlice, *ssa.MakeChan, *ssa.MakeMap:
+			mods["$anyalloc"] = true
 		case ssa.CallInstruction:
 			c := in.Common()
 			if c.IsInvoke() {
@@ -801,9 +1027,19 @@ func (a *Activation) loopModSet(li *loopInfo) (map[string]bool, bool) {
 			}
 			if _, ok := c.Value.(*ssa.Builtin); ok {
 				if c.Value.Name() == "append" {
-					for n := range a.t.arrSort {
-						if strings.HasPrefix(n, "elem:") {
+					mods["$anyalloc"] = true
+					if st, ok := c.Args[0].Type().Underlying().(*types.Slice); ok {
+						pre := "elem:" + prefixFor(st.Elem())
+						for _, lf := range a.t.leavesOf(st.Elem()) {
+							n := pre + lf.path
+							a.t.regArray(n, "(Array Int (Array Int "+sortOfKind(lf.kind)+"))")
 							mods[n] = true
+							m := a.loopModes[n]
+							if m == nil {
+								m = &arrMode{}
+								a.loopModes[n] = m
+							}
+							m.fresh = true
 						}
 					}
 					// element arrays created later are fresh per allocation anyway
@@ -812,9 +1048,13 @@ func (a *Activation) loopModSet(li *loopInfo) (map[string]bool, bool) {
 			}
 			callee := c.StaticCallee()
 			if callee == nil {
+				if a.hasClause("purecalls") {
+					return
+				}
 				all = true
 				return
 			}
+			mods["$anycalls"] = true
 			if o := callee.Origin(); o != nil {
 				callee = o
 			}
@@ -920,6 +1160,11 @@ func (a *Activation) addModifiesPattern(m string, callee *ssa.Function, mods map
 	for n := range a.t.arrSort {
 		if strings.HasSuffix(n, path) || strings.Contains(n, path+".") || strings.Contains(n, path+"#") {
 			mods[n] = true
+			if m := a.loopModes[n]; m != nil {
+				m.full = true
+			} else {
+				a.loopModes[n] = &arrMode{full: true}
+			}
 		}
 	}
 	mods["$pattern:"+path] = true
